@@ -33,6 +33,9 @@ pub enum FuncKind {
     Random,
     /// polynomial of degree bound+1 .. domain-1 (selector)
     HighDegree(u16),
+    /// x^(bound+1) * Q(x) with deg Q <= bound: too high a degree, and every coefficient below x^(bound+1) is zero
+    /// (so the untruncated remainder starts with as many zeros as a remainder within the bound has coefficients)
+    HighDegreeLowZeros(u16),
     /// polynomial within the bound, changed on max(1, D >> log_inv_fraction) drawn positions
     Corrupted { log_inv_fraction: u8 },
 }
@@ -117,6 +120,7 @@ fn func_strategy() -> BoxedStrategy<FuncKind> {
         3 => any::<u16>().prop_map(FuncKind::HighDegree),
         // exactly bound + 1
         1 => Just(FuncKind::HighDegree(0)),
+        2 => any::<u16>().prop_map(FuncKind::HighDegreeLowZeros),
         4 => (0u8..=14).prop_map(|l| FuncKind::Corrupted { log_inv_fraction: l }),
     ]
     .boxed()
@@ -396,6 +400,17 @@ where
                 let f = model::eval_coset(&coeffs, domain, offset);
                 let g = model::eval_coset(&coeffs[..t], domain, offset);
                 (f, g, "high-degree")
+            },
+            FuncKind::HighDegreeLowZeros(sel) => {
+                // degree t .. 2t - 1 (the domain has at least 2t points: blowup >= 2)
+                let deg = t + vf_core::pick_index(*sel, t.min(domain - t));
+                let mut coeffs: Vec<E> = random_poly(&mut x, deg + 1);
+                for c in coeffs.iter_mut().take(t) {
+                    *c = E::ZERO;
+                }
+                let f = model::eval_coset(&coeffs, domain, offset);
+                let g = model::eval_coset(&random_poly::<E>(&mut x, t), domain, offset);
+                (f, g, "high-degree-low-zeros")
             },
             FuncKind::Corrupted { log_inv_fraction } => {
                 let g = model::eval_coset(&random_poly::<E>(&mut x, t), domain, offset);
